@@ -183,20 +183,32 @@ ALL = [f'C{n:02d}' for n in range(1, 21)]
 
 # later strengthening of the workloads (second to fourth seeded wave), appended to the level texts
 EXTRA = {
-    'C02': ' A fifth of the lenses are traced once, edited through the public setters and judged against the edited prescription.',
+    'C02': ' A fifth of the lenses are traced once, edited through the public setters and judged against the edited prescription.'
+           ' A ray without an intersection must not have a finite recorded point either.',
     'C03': ' Also on lenses edited after a first use, with curved object surfaces and with fields entered in any order.',
     'C04': ' A quarter of the lenses are queried once, edited through the public setters and queried again.',
     'C05': ' A third of the lenses are used once and edited before the measurement.',
     'C06': ' Included: the same bundle written by hand (RealRays with shared caller arrays), a convex paraboloid (virtual focus), '
-           'a catalogue-glass singlet evaluated at a non-primary wavelength, a singlet made stigmatic by set_index after its first use.',
-    'C07': ' Seventh relation: a lens edited after its first use equals the edited prescription built from scratch.',
-    'C09': ' A fifth of the analysed lenses are used and edited first (oracle traces a lens built from scratch); RMS-vs-field over every named distribution.',
-    'C10': ' Several fit objects are kept alive and read late (what an earlier object reports must not change).',
-    'C12': ' A fifth of the analysed lenses are used and edited first (oracle traces a lens built from scratch).',
-    'C13': ' One analysis object queried twice must answer the same; a hand-made RealRays bundle leaves the caller\'s (shared) arrays untouched.',
+           'a catalogue-glass singlet evaluated at a non-primary wavelength, a singlet made stigmatic by set_index after its first use.'
+           ' Two catadioptric families (refraction of light travelling towards -z); image inside a catalogue glass at a non-primary wavelength.',
+    'C07': ' Seventh relation: a lens edited after its first use equals the edited prescription built from scratch.'
+           ' Pure central obscurations and objectNA lenses in the scaling relations, vignetting factors in the mirror relation.',
+    'C09': ' A fifth of the analysed lenses are used and edited first (oracle traces a lens built from scratch); RMS-vs-field over every named distribution.'
+           ' RMS-vs-field is analysed with two wavelengths and judged on the second; the first use before an edit includes the judged field and wavelength.',
+    'C10': ' Several fit objects are kept alive and read late (what an earlier object reports must not change).'
+           ' One polynomial object asked repeatedly; default-constructed objects are independent zero vectors; element assignment on a default object.',
+    'C12': ' A fifth of the analysed lenses are used and edited first (oracle traces a lens built from scratch).'
+           ' Non-rotationally-symmetric lenses for spot/fan/encircled energy/operands; clipping apertures in the encircled-energy and pupil-aberration families.',
+    'C13': ' One analysis object queried twice must answer the same; a hand-made RealRays bundle leaves the caller\'s (shared) arrays untouched.'
+           ' Caller-owned Distribution objects; calls rejected for a missing polarization state leave the lens untouched; polarized intensities in a bundle vs alone; wavefront independent of what the records held.',
     'C14': ' Bounds of exactly zero are generated; two fixed runs per front end in the quick tier.',
     'C16': ' A seventh of the lenses are traced once and edited before the judged trace.',
-    'C17': ' The rotation sense of element angles is read from the named polarizers (H -> L45) and required of retarders and diattenuator.',
+    'C01': ' Histories include set_radius(+-inf) on curved surfaces, ready-made stop surfaces through add_surface(new_surface=), source-first pickup chains and add_wavelength of an existing value as new primary.',
+    'C11': ' Pupils cut by physical apertures / central obscurations and pupils or spots with lost rays are decided (dark samples; arriving rays).',
+    'C19': ' Surfaces inserted / removed before saving, field type set after the fields, object-space medium edited.',
+    'C20': ' The first line of the file varies (VERS / MODE / aperture); x-only and grid field lists; a model glass must have the file\'s index at the d line.',
+    'C17': ' The rotation sense of element angles is read from the named polarizers (H -> L45) and required of retarders and diattenuator.'
+           ' Fresnel matrices for one bundle of mixed wavelengths in dispersive media.',
 }
 
 
